@@ -176,7 +176,7 @@ pub fn record(output: &str) {
                 let qs: Joints = [q[0], q[1], q[2], q[3], 0.0, q[5]];
                 // (also for a singular vector outside the limits: the report is the stack's, whatever the limits say)
                 let mut q_out = qs;
-                q_out[0] = case.to[0] + 0.4;
+                q_out[2] = case.to[2] + 0.9;      // (joint 3: its range is narrow enough for this to be outside modulo a turn)
                 let sing_same = kws.kinematic_singularity(&qs).is_some() && kws.kinematic_singularity(&q).is_some() == (q[4].sin().abs() < 1.7e-4)
                     && kws.kinematic_singularity(&q_out).is_some() == kws.kinematics.kinematic_singularity(&q_out).is_some() && kws.kinematic_singularity(&q_out).is_some();
                 // the pair reports of the robot with shape are the body's own (same kinematics, same joints)
